@@ -18,6 +18,7 @@ import (
 	"fmt"
 	"net/url"
 	"regexp"
+	"strings"
 
 	"github.com/oxia-db/oxia/common/compare"
 	"github.com/oxia-db/oxia/common/constant"
@@ -330,10 +331,12 @@ func secondaryIndexGet(req *proto.GetRequest, db kv.DB) (*proto.GetResponse, err
 	return gr, err
 }
 
-//nolint:revive
 func doSecondaryGet(db kv.DB, req *proto.GetRequest) (primaryKey string, secondaryKey string, err error) {
 	indexName := *req.SecondaryIndexName
 	searchKey := fmt.Sprintf(secondaryIdxRangePrefixFormat, indexName, req.Key)
+	// All the entries of this index, and only them, start with this prefix. The iterator
+	// walks the whole db: the keys around the index belong to other indexes or to other data
+	indexPrefix := fmt.Sprintf(secondaryIdxRangePrefixFormat, indexName, "")
 
 	it, err := db.KeyIterator()
 	if err != nil {
@@ -342,54 +345,57 @@ func doSecondaryGet(db kv.DB, req *proto.GetRequest) (primaryKey string, seconda
 
 	defer func() { _ = it.Close() }()
 
-	if req.ComparisonType == proto.KeyComparisonType_LOWER {
+	// entry parses the key the iterator is positioned on; ok is false when the iterator is not on an entry of this index
+	entry := func() (pk string, sk string, ok bool, err error) {
+		if !it.Valid() || !strings.HasPrefix(it.Key(), indexPrefix) {
+			return "", "", false, nil
+		}
+		pk, sk, err = secondaryIndexPrimaryAndSecondaryKey(it.Key())
+		if err != nil {
+			return "", "", false, err
+		}
+		return pk, sk, true, nil
+	}
+
+	switch req.ComparisonType {
+	case proto.KeyComparisonType_LOWER:
 		it.SeekLT(searchKey)
-	} else {
-		// For all the other cases, we set the iterator on >=
+
+	case proto.KeyComparisonType_FLOOR:
+		// There is no <= seek: first check for ==, then for <
+		it.SeekGE(searchKey)
+		if _, sk, ok, err := entry(); err != nil && !errors.Is(err, errFailedToParseSecondaryKey) {
+			return "", "", err
+		} else if !ok || sk != req.Key {
+			it.SeekLT(searchKey)
+		}
+
+	case proto.KeyComparisonType_HIGHER:
+		it.SeekGE(searchKey)
+		for {
+			_, sk, ok, err := entry()
+			if err != nil && !errors.Is(err, errFailedToParseSecondaryKey) {
+				return "", "", err
+			}
+			if !ok || compare.CompareWithSlash([]byte(req.Key), []byte(sk)) < 0 {
+				break
+			}
+			it.Next()
+		}
+
+	default:
+		// EQUAL and CEILING
 		it.SeekGE(searchKey)
 	}
 
-	for it.Valid() {
-		itKey := it.Key()
-		primaryKey, secondaryKey, err = secondaryIndexPrimaryAndSecondaryKey(itKey)
-		if err != nil && !errors.Is(err, errFailedToParseSecondaryKey) {
-			return "", "", err
-		}
-
-		cmp := compare.CompareWithSlash([]byte(req.Key), []byte(secondaryKey))
-
-		switch req.ComparisonType {
-		case proto.KeyComparisonType_EQUAL:
-			if cmp != 0 {
-				primaryKey = ""
-			}
-			return primaryKey, secondaryKey, err
-
-		case proto.KeyComparisonType_FLOOR:
-			if primaryKey == "" || cmp < 0 {
-				it.Prev()
-			} else {
-				return primaryKey, secondaryKey, err
-			}
-
-		case proto.KeyComparisonType_LOWER:
-			if cmp <= 0 {
-				it.Prev()
-			} else {
-				return primaryKey, secondaryKey, err
-			}
-
-		case proto.KeyComparisonType_CEILING:
-			return primaryKey, secondaryKey, err
-
-		case proto.KeyComparisonType_HIGHER:
-			if cmp >= 0 {
-				it.Next()
-			} else {
-				return primaryKey, secondaryKey, err
-			}
-		}
+	primaryKey, secondaryKey, ok, err := entry()
+	if err != nil || !ok {
+		return "", "", err
 	}
 
-	return primaryKey, secondaryKey, err
+	if req.ComparisonType == proto.KeyComparisonType_EQUAL && secondaryKey != req.Key {
+		return "", "", nil
+	}
+
+	return primaryKey, secondaryKey, nil
 }
